@@ -72,7 +72,9 @@ pub struct ProjSet {
 
 const DIRS: [&str; 4] = ["proj", "proj/a", "proj/b", "proj/sub/c"];
 const GOOD_PROJECT_NAMES: [&str; 4] = ["pa", "pb", "pc", "root"];
-const TARGET_NAMES: [&str; 5] = ["a", "b", "c", "t-1", "_x"];
+/// The last three are valid per `^\w[-\w]*$` but not "alphanumeric": a combining mark (Mn), a
+/// connector punctuation (Pc) and a join control inside the name.
+const TARGET_NAMES: [&str; 8] = ["a", "b", "c", "t-1", "_x", "cafe\u{301}", "u\u{203F}v", "\u{915}\u{94D}\u{200D}\u{937}"];
 const BAD_NAMES: [&str; 6] = ["-bad", "a b", "a::b", "", "a.b", "x/y"];
 /// Valid per `^\w[-\w]*$` with Unicode word characters.
 const UNICODE_NAMES: [&str; 3] = ["été", "目标", "ß-1"];
@@ -637,7 +639,9 @@ impl ProjSet {
 /// `^\w[-\w]*$` with Unicode word characters (alphanumeric, marks, connector punctuation).
 pub fn valid_name(s: &str) -> bool {
     let mut chars = s.chars();
-    let word = |c: char| c.is_alphanumeric() || c == '_';
+    // only ever applied to the name tables above: the listed marks / connector / join control
+    // are word characters (\p{M}, \p{Pc}, \p{Join_Control}) without being alphanumeric
+    let word = |c: char| c.is_alphanumeric() || c == '_' || matches!(c, '\u{301}' | '\u{203F}' | '\u{94D}' | '\u{200D}');
     match chars.next() {
         Some(c) if word(c) => chars.all(|c| word(c) || c == '-'),
         _ => false,
